@@ -54,17 +54,20 @@ CLAIMED.update({
     "C11": dict(cat="model_checking", sec="5/C11",
                 text="Locks.tla models std's writer-preferring RwLock; the lock programs of every registered handler are recorded "
                      "from the real code (hook H3) in five engine states on every run, and TLC explores every interleaving of every "
-                     "pair (quick) / triple (thorough) of programs, reporting each reachable state where an unfinished thread "
-                     "exists and nobody can move.",
+                     "pair of whole programs and of every triple (quick) / quintuple (thorough) of their lock-free-to-lock-free "
+                     "sections (a sound and complete reduction for deadlocks), reporting each reachable state where an unfinished "
+                     "thread exists and nobody can move.",
                 note="RwLock semantics (writer preference) as implemented by std on Linux; programs are observed in 5 engine-state "
                      "classes, not derived statically; tokio scheduling and the bounded 5 s wait are not modelled",
                 tech="TLA+ lock model + TLC exhaustive interleavings over lock programs recorded from the implementation"),
     "C12": dict(cat="model_checking", sec="5/C12",
-                text="AuthGate.tla is the complete decision table (method x form x header x auth on/off); TLC checks the property on "
-                     "it and every case is replayed over HTTP against a server started by the public start(), with a state digest "
-                     "before and after each request; methods outside the protected set must not change the digest.",
-                note="HTTP transport only (WebSocket upgrade not exercised); notification execution is unobservable for two methods",
-                tech="TLA+ decision table enumerated by TLC, every case replayed against the real HTTP server"),
+                text="AuthGate.tla is the complete decision table (method x form x header class x auth on/off x transport); TLC checks "
+                     "the property on it and every case is replayed over HTTP and over a WebSocket connection against a server "
+                     "started by the public start(), with a state digest before and after each request; methods outside the "
+                     "protected set must not change the digest.",
+                note="header classes: none, wrong user, wrong password, malformed, empty, scheme only, truncated, extended, correct; "
+                     "one request frame per WebSocket connection; notification execution is unobservable for two methods",
+                tech="TLA+ decision table enumerated by TLC, every case replayed against the real HTTP/WebSocket server"),
     "C20": dict(cat="model_checking", sec="5/C20",
                 text="ConfigGate.tla enumerates directory state x creating configuration x opening configuration x tampered/missing "
                      "rows; TLC checks the property on the table and each case is replayed through the public start(); on success "
@@ -80,8 +83,9 @@ CLAIMED.update({
                      "flush, hook H2) is a crash point: the history is replayed with the fail-point armed before that write, the "
                      "instance is dropped and reopened, an admissible reorg to a durable height is issued and three more blocks are "
                      "appended; TraceRef.tla (TrCrash/TrReopen/TrRecover) states what the state must be from the recovering reorg on.",
-                note="RocksDB single-operation atomicity and WAL durability across process death; the crash is injected as an error "
-                     "at the armed write followed by dropping the instance; quick tier samples at most 60 points per operation",
+                note="RocksDB single-operation atomicity; the crash is injected as an error at the armed write followed by dropping the "
+                     "instance, and at a few points per operation by a child process that aborts inside the write (nothing flushed "
+                     "or closed); quick tier samples at most 60 points per operation",
                 tech="fault enumeration over every persistent write + TLA+ trace validation of the recovery"),
     "C10": dict(cat="model_checking", sec="5/C10", note=HIST_NOTE, tech=HIST_TECH,
                 text="All read actions of the reference machine leave every variable unchanged; state-mutating Cell programs "
@@ -91,14 +95,16 @@ CLAIMED.update({
     "C16": dict(cat="exploration", sec="5/C16",
                 text="Gas.tla: threshold machine + observation-only monitor (TLC: monitor sound, estimate sufficient); TraceGas.tla runs "
                      "the monitor over real executions: estimate, then the same call as a transaction at lengths {0,1,L-1,L,L+1,10L,huge} "
-                     "from the same committed state; rejects when no threshold explains all observations, when gas used exceeds the "
+                     "from the same committed state (programs include long zero-heavy / non-zero calldata in front of an idle callee and "
+                     "parked-then-drained signed transactions); rejects when no threshold explains all observations, when gas used exceeds the "
                      "allowance, when a failed transaction changed state, or when the output differs from eth_call.",
                 note="programs from a seeded generator over Cell ops; nested calls that ignore callee failure excluded",
                 tech="TLA+ monitor model-checked for soundness, then run over recorded executions (trace validation)"),
     "C17": dict(cat="model_checking", sec="5/C17", note=HIST_NOTE, tech=HIST_TECH,
                 text="eth_call results are compared with the reference evaluation, and every transaction executed right after an "
                      "eth_call with the same sender, target and data must have the predicted success flag and return data "
-                     "(trace variable pred); simulated creations must return the runtime code that the deployment installs."),
+                     "(trace variable pred); simulated creations must return the runtime code that the deployment installs; Cell op env "
+                     "makes GASLIMIT, COINBASE, BASEFEE, GASPRICE, BLOBBASEFEE, SELFBALANCE, CALLVALUE and CHAINID observable in both."),
     "C18": dict(cat="model_checking", sec="5/C18", note=HIST_NOTE,
                 text="LogFilters.tla enumerates every filter shape (address x positional topics with wildcard/single/alternatives x "
                      "range forms); each is asked of the real engine over chains that are never committed, committed at random "
@@ -117,14 +123,17 @@ CLAIMED.update({
                 text="The reference machine is deterministic and defines the order of every list; each TLC-generated schedule runs on "
                      "three real instances (two in one process with different hash-map seeds, one of them restarted right after a "
                      "commit, and one in a child process) and the normalised raw answers of every call and every projection query are "
-                     "compared; pinned digests of a fixed corpus bind the tree to the reference of the same protocol/db version.",
+                     "compared; pinned digests of a fixed corpus bind the tree to the reference of the same protocol/db version, and "
+                     "SatLoc.tla (the transaction-graph helper contracts transcribed into TLA+) fixes the answer of every case of its "
+                     "small-scope table, replayed on the real contracts with client-supplied transactions.",
                 note="JSON object member order canonicalised, mineTimestamp zeroed; golden digests only for equal declared versions",
                 tech="differential execution of TLC-generated schedules on 3 replicas + pinned digests; list orders defined by the TLA+ reference machine"),
     "C09": dict(cat="exploration", sec="5/C09",
                 text="RpcSurface.tla models the slot/poison state machine (liveness reduces to: no handler panics or loops) and TLC "
                      "enumerates the class partition of every parameter of every registered method x engine state from the real method "
                      "table; every case is sent as raw JSON on its own task under a watchdog with a read probe after each request and "
-                     "a write round per group, plus ABI-valid/invalid precompile inputs and seeded random bytes as code/calldata/raw tx. "
+                     "a write round per group, plus ABI-valid/invalid precompile inputs, every case of SatLoc.tla (transaction graphs "
+                     "supplied by the client to the 0x..fc / 0x..fd helper contracts) and seeded random bytes as code/calldata/raw tx. "
                      "The same monitor (panic/timeout = no matching action) is active in every trace-validated check.",
                 note="all byte strings cannot be enumerated: class partition + random sample; revm trusted beyond that; requests whose "
                      "work is proportional to an explicit count (brc20_mine of 2^32 blocks) are not hangs; Bitcoin-node dependent "
